@@ -39,7 +39,9 @@ def project(line, impl):
             continue
         k, v = t.split("=", 1)
         if k == task + ".build":
-            build = v
+            build = canon_result(v)
+        elif v == "no-task" and build.startswith("err:") and k.startswith(task + "."):
+            continue    # the setup failed, the task has ended: commands are not answered
         elif k in ("conn.A", "drv.W"):
             res.append(canon_result(v))
         elif k == task + ".U":
@@ -232,7 +234,14 @@ class C04(Prop):
                   "FIN/RESET anywhere) the resolved stream type and push/session id are the RFC 9000 §16 values, the bytes "
                   "behind the header stay in the buffer, an incomplete header at FIN/RESET is dropped silently, never "
                   "H3_INTERNAL_ERROR; for every history of stream arrivals and control-stream items the first connection "
-                  "error is the one the RFC 9114 §6.2/§7.2 table demands and there is none where the table has none; for "
+                  "error is the one the oracle table Spec.ControlRules.verdict demands (the rules the property names, written "
+                  "from RFC 9114 §6.2/§7.2, GOAWAY identifier rules included) and there is none where the table has none; the "
+                  "rules of server push, which the property's text does not name and h3 does not implement (a push stream, "
+                  "CANCEL_PUSH, a MAX_PUSH_ID that goes down), are `may` in that table (reading R-04b) - "
+                  "C04_rfc_table_differs_only_on_push: the RFC-by-the-letter table verdictRfc differs from it only there, and "
+                  "the code's departures from the letter on those three are re-observed on the real code and printed as NOTE "
+                  "lines by every run; a stream whose type the table calls unknown, or that ends before its type is known, "
+                  "never raises an error and leaves the connection state untouched (C04_unknown_stream, against the table); for "
                   "every grease-stream script (poll_open_send/send_data/poll_ready/poll_finish answering pending/ok/err in "
                   "any pattern) every frame the frame layer delivers is handed to the role handler exactly once, in order, and "
                   "the outcome does not depend on the grease script at all (an error on the grease stream is never a connection "
@@ -250,7 +259,15 @@ class C04(Prop):
             "{open, FIN, RESET} at every frame boundary and inside frames x chunkings; (C) up to 4 streams of 7 kinds, all "
             "kind sequences of length<=3 x all delivery orders, random length 4; (D) grease on/off x stream credit uc=3/4 + "
             "gu<n> at every position x write credit wc=0/5/100 + gw at every position x STOP_SENDING on the grease stream; "
-            "both roles; (D') stream errors (StreamTerminated, Unknown) injected at poll_open_send / send_data / poll_ready / "
+            "both roles; (D'') the grease stream blocked inside its 8-byte stream type (wc=k / gw<grease id>:k, k=1..7, then Pending) x a "
+            "second and third control frame x more credit at every later position; (F) the endpoint's OWN streams: x<sid> "
+            "(STOP_SENDING) on the own control / QPACK encoder / QPACK decoder stream (and the grease stream) at every position of 8 "
+            "peer scripts x g0/g1 x driver started first / anywhere / last, single accept and accept loop; random interleavings "
+            "(quick 1500, thorough 6000 per role) of a peer script, stream credit uc=0..4 + gu grants, write credit wc in "
+            "{0,1,5,25..30} (grease on: outside the 28..35 window of the random-length SETTINGS) + gw grants on the three own streams "
+            "in pieces, x<own sid>, U, second accept, SETTINGS of other lengths (mfs/ec/dg/wt/wts); the server's final GOAWAY "
+            "(accept -> shutdown(0)) with exactly the setup's credit: credit byte by byte, STOP_SENDING meanwhile, the accept loop "
+            "interrupted by a command, further peer frames meanwhile; (D') stream errors (StreamTerminated, Unknown) injected at poll_open_send / send_data / poll_ready / "
             "poll_finish of the grease stream (and poll_finish answering Pending once) at every position of (D); (E) engine `flt` (tools/props/faults.py): every "
             "transport call of the setup x every ConnectionErrorIncoming / StreamErrorIncoming variant, the same on the own "
             "control stream at shutdown, at poll_accept_recv / poll_accept_bidi / reads of the peer's control stream and of an "
@@ -263,6 +280,14 @@ class C04(Prop):
                "lean/H3/Drv/Fault.lean (fault table, sticky connection error, mailbox)",
                "translator decision tables H3.Gen.CtlArms (arms of ConnectionInner::poll_control before/after SETTINGS, process_goaway, server poll_next_control, client poll_close, per variant of enum Frame) and H3.Gen.UniArms (AcceptRecvStream::into_stream, poll_type, the two matches of poll_accept_recv), re-read from h3/src/connection.rs, h3/src/server/connection.rs, h3/src/client/connection.rs, h3/src/stream.rs on this run (any other shape is refused); tied to the models by H3.Lemmas.GenAgreeCtl (classify_frame, handle_agrees, processGoaway_agrees, intoStream_agrees, needsId_agrees, acceptKind_agrees, acceptArrival_agrees, grease_not_blocking), rebuilt on this run"]
     assumptions = ["transport chunks are non-empty (R-T)", "overlapping rules accept either code (R-04)",
+                   "R-04b: the rules of server push (push streams, CANCEL_PUSH, MAX_PUSH_ID going down) are not named by the property's text; "
+                   "the oracle accepts no error or the RFC's error there, the departures from RFC 9114 by the letter are printed as NOTE lines",
+                   "R-04c: a stopped own control stream is H3_CLOSED_CRITICAL_STREAM at the latest when the endpoint has to write on it "
+                   "(SETTINGS at the end of the setup, the server's GOAWAY before accept answers None), allowed from the STOP_SENDING on; "
+                   "whether accept's None waits for write credit for that GOAWAY is not constrained (both accepted until the credit is there); "
+                   "stopped own QPACK streams: no opinion (no error, or H3_CLOSED_CRITICAL_STREAM)",
+                   "grease on: the control stream header is 28..35 bytes long (random setting id); lines whose control-stream credit stands "
+                   "inside that window at an op boundary while SETTINGS are being written have no definite model answer and are not generated",
                    "the application keeps accept()/wait_idle() in flight (the driver is polled when something arrives)",
                    "simultaneously available streams are judged in the order the transport hands them over, then the control stream"]
 
@@ -486,10 +511,131 @@ class C04(Prop):
                                 p2 = rng.randrange(p, len(base) + 1)
                                 ops = base[:p] + extra[:1] + base[p:p2] + extra[1:] + base[p2:]
                                 add(line(role, cfg, pre + [start_op(role)] + ops))
+            # the grease stream blocked INSIDE its 8-byte stream type (k = 1..7 bytes taken, then Pending), a second control
+            # frame delivered meanwhile, then more credit and a third frame: the stream must stay `writing` (not finished)
+            # until the rest has been taken (seeded change C14/patch3: `DataSent` set before the flush result is looked at)
+            seqs_k = [["S", a] + rest for a in ("G0", "G4", "M1", "C") for rest in ([], ["G0"], ["U"], ["M1"], ["C", "G0"])]
+            for k in range(1, 8):
+                for cfg, extra in (("g1,wc=%d" % k, []), ("g1,wc=%d" % k, ["gw%d:100" % gs]),
+                                   ("g1,wc=0", ["gw%d:%d" % (gs, k)]), ("g1,wc=0", ["gw%d:%d" % (gs, k), "gw%d:100" % gs])):
+                    for seq in seqs_k:
+                        base = ["o%d" % sid, "s%d:00" % sid] + ["s%d:%s" % (sid, hx(FRAMES[x])) for x in seq]
+                        if not extra:
+                            add(line(role, cfg, grants + [start_op(role)] + base))
+                            continue
+                        # the first credit op behind SETTINGS (the stream exists), the second anywhere behind it
+                        for p in range(3, len(base) + 1):
+                            for p2 in (range(p, len(base) + 1) if len(extra) > 1 else [p]):
+                                ops = base[:p] + extra[:1] + base[p:p2] + extra[1:] + base[p2:]
+                                add(line(role, cfg, grants + [start_op(role)] + ops))
             # second accept() after the first has returned; the build phase waiting for write credit
             add(line(role, "g1,uc=3", ["o%d" % sid, "s%d:000400" % sid, start_op(role), "s%d:070100" % sid, "gu5", start_op(role)]))
             add(line(role, "g1,wc=0", [start_op(role), "o%d" % sid, "s%d:000400" % sid]))
             add(line(role, "g1,wc=0", [start_op(role)] + grants + ["o%d" % sid, "s%d:000400" % sid]))
+
+    def fam_own(self, big, rng, add):
+        """the endpoint's OWN streams: STOP_SENDING on the control / QPACK streams at every position, the setup waiting for
+        stream credit (uc=0/1/2 + gu) or for write credit on the control stream (SETTINGS accepted in pieces), the server's
+        final GOAWAY (accept -> shutdown(0)) waiting for credit, interrupted, or meeting the stopped stream"""
+        def merge(lists):
+            """a random interleaving that keeps the order inside every list"""
+            pool = [list(l) for l in lists if l]
+            out = []
+            while pool:
+                i = rng.randrange(len(pool))
+                out.append(pool[i].pop(0))
+                if not pool[i]:
+                    pool.pop(i)
+            return out
+
+        for role in ("server", "client"):
+            pc = peer_sids(role)[0]
+            own = local_sids(role)
+            gs = grease_sid(role)
+            st = start_op(role)
+            one = "conn.A" if role == "server" else "drv.W"
+            seqs = [
+                ["o%d" % pc, "s%d:000400" % pc, "s%d:070100" % pc],
+                ["o%d" % pc, "s%d:00" % pc, "s%d:0400" % pc, "s%d:0701" % pc, "s%d:00" % pc],
+                ["o%d" % pc, "s%d:000400070100" % pc],
+                ["o%d" % pc, "s%d:000400" % pc, "s%d:070104" % pc, "s%d:070100" % pc],
+                ["o%d" % pc, "s%d:000400" % pc, "s%d:070100" % pc, "s%d:0000" % pc],      # DATA behind the GOAWAY
+                ["o%d" % pc, "s%d:000400" % pc, "s%d:030101" % pc, "s%d:070100" % pc],
+                ["o%d" % pc, "s%d:000400" % pc, "s%d:0d0101" % pc],
+                ["o%d" % pc, "s%d:000400" % pc, "f%d" % pc],
+            ]
+            # (1) STOP_SENDING on the own streams at every position, credit unlimited
+            for g in ("g0", "g1"):
+                for seq in seqs:
+                    for xs in ([own[0]], [own[1]], [own[2]], [own[1], own[0]], [own[0], gs]):
+                        xops = ["x%d:%d" % (x, 7 + i) for i, x in enumerate(xs)]
+                        for p in range(len(seq) + 1):
+                            ops = seq[:p] + xops + seq[p:]
+                            add(line(role, g, [st] + ops + [st]))
+                            add(line(role, g, ops + [one, one]))
+                            q = rng.randrange(0, len(ops) + 1)
+                            add(line(role, g, ops[:q] + [one] + ops[q:] + [st, u_op(role)]))
+            # (2) the setup waits for stream credit; (3) for write credit on its three streams; STOP_SENDING meanwhile
+            n_rand = 6000 if big else 1500
+            for _ in range(n_rand):
+                g1 = rng.random() < 0.4
+                seq = list(rng.choice(seqs))
+                cfg = ["g1" if g1 else "g0"]
+                lists = [seq]
+                # (grease on and write credit short: the control stream exists from the start, so that no grant is lost)
+                uc = rng.choice([None, None, 0, 1, 2, 3, 4])
+                if uc is not None:
+                    cfg.append("uc=%d" % uc)
+                    lists.append(["gu%d" % k for k in rng.choice([[3], [1, 1, 1], [1, 2], [2, 5], [1], [1, 1, 1, 1], [4]])])
+                if not g1 and rng.random() < 0.3:
+                    cfg.append(rng.choice(["mfs=0", "mfs=63", "mfs=64", "mfs=16384", "mfs=1073741824", "ec=1", "dg=1", "wt=1", "wts=70"]))
+                wc = rng.choice([None, 0, 0, 1, 5, 25, 26, 27, 28, 29, 30]) if not g1 else rng.choice([None, 0, 0, 5, 27, 40])
+                if wc is not None and g1 and uc == 0:
+                    cfg[-1] = "uc=1"
+                if wc is not None:
+                    cfg.append("wc=%d" % wc)
+                    if g1:
+                        # the length of the control stream header is 28..35 with grease: totals stay outside that window
+                        targets = rng.choice([[27, 35, 37, 38], [35, 38], [20, 36, 39], [40], [27], [35, 36]])
+                        grants, have = [], wc
+                        for t in targets:
+                            if t > have:
+                                grants.append("gw%d:%d" % (own[0], t - have))
+                                have = t
+                        if wc < 9:
+                            lists.append(rng.choice([["gw%d:100" % gs], ["gw%d:3" % gs, "gw%d:100" % gs], []]))
+                    else:
+                        grants = ["gw%d:%d" % (own[0], k) for k in rng.choice(
+                            [[26], [29], [10, 16], [10, 16, 3], [13, 13, 1, 1, 1], [1, 25, 2, 1], [5, 5, 5, 5, 5, 1, 3], [25], [26, 2], [100],
+                             [20, 2, 1, 3], [19, 3], [22, 3]])]
+                    lists.append(grants)
+                    lists.append(rng.choice([["gw%d:1" % own[1], "gw%d:1" % own[2]], ["gw%d:1" % own[2], "gw%d:1" % own[1]],
+                                             ["gw%d:1" % own[1]], ["gw%d:5" % own[1], "gw%d:5" % own[2]]]))
+                r = rng.random()
+                if r < 0.45:
+                    lists.append(["x%d:%d" % (rng.choice(own), rng.randrange(0, 300))])
+                elif r < 0.55:
+                    lists.append(["x%d:1" % rng.choice(own), "x%d:2" % rng.choice(own)])
+                api = rng.choice([[st], [st], [one], [one, one], [st, u_op(role), st], [one, u_op(role), one], [st, st]])
+                lists.append(api)
+                ops = merge(lists)
+                # the credit ops that open the own streams come before those that grant write credit on them more often
+                add(line(role, ",".join(cfg), ops))
+            # (4) the server's final GOAWAY: credit for the setup exactly, then the peer's GOAWAY, then credit byte by byte,
+            #     a command that interrupts the accept loop, STOP_SENDING, more frames from the peer
+            if role == "server":
+                up = ["gw%d:26" % own[0], "gw%d:1" % own[1], "gw%d:1" % own[2]]
+                peer = ["o%d" % pc, "s%d:000400" % pc, "s%d:070100" % pc]
+                tails = [["gw3:1", "gw3:1", "gw3:1"], ["gw3:3"], ["gw3:2", "x3:7"], ["x3:7"], ["gw3:1", "conn.U", "gw3:5"],
+                         ["conn.AS", "conn.AL", "gw3:3"], ["gw3:2", "s%d:0000" % pc, "gw3:1", "conn.A"], ["s%d:070100" % pc, "gw3:3"],
+                         ["gw3:1", "conn.AL", "gw3:1", "gw3:1", "conn.A"], ["f%d" % pc, "gw3:3", "conn.A"], []]
+                for acc in ("conn.AL", "conn.A"):
+                    for wcs, pre in (("wc=0", up), ("wc=26", []), ("wc=27", []), ("wc=28", []), ("wc=29", [])):
+                        for tail in tails:
+                            for api_first in (True, False):
+                                ops = ([acc] + pre + peer) if api_first else (pre + peer + [acc])
+                                add(line(role, "g0," + wcs, ops + tail))
+                                add(line(role, "g0," + wcs, ops + tail + ["conn.A"]))
 
     def cases(self, tier, rng):
         big = tier == "thorough"
@@ -501,6 +647,7 @@ class C04(Prop):
                 L.append(l)
 
         self.fam_grease(big, rng, add)
+        self.fam_own(big, rng, add)
         from props import faults
         for l in faults.cases(big, rng):
             add(l)
@@ -508,6 +655,32 @@ class C04(Prop):
         self.fam_orders(big, rng, add)
         self.fam_control(big, rng, add)
         return L
+
+    # RFC 9114 by the letter where the property's text is silent (server push, reading R-04b): the witnesses are
+    # re-run against the real code on every check and judged by `Spec.ControlRules.verdictRfc` (engine `ctlrfc`)
+    RFC_WITNESSES = [
+        ("ctl server g0 o2 s2:000400 o6 s6:0100 conn.A", "a push stream sent to a server (RFC 9114 6.2.2: H3_STREAM_CREATION_ERROR)"),
+        ("ctl client g0 o3 s3:000400 o7 s7:0100 drv.W", "a push stream sent to a client that never sent MAX_PUSH_ID (4.6: H3_ID_ERROR)"),
+        ("ctl server g0 o2 s2:000400 s2:030101 conn.A", "CANCEL_PUSH sent to a server that promised nothing (7.2.3: H3_ID_ERROR)"),
+        ("ctl client g0 o3 s3:000400 s3:030101 drv.W", "CANCEL_PUSH sent to a client that allowed no push (7.2.3: H3_ID_ERROR)"),
+        ("ctl server g0 o2 s2:000400 s2:0d0105 s2:0d0101 conn.A", "MAX_PUSH_ID going down (7.2.7: H3_ID_ERROR)"),
+    ]
+
+    def extra(self, tier, rng, ctx):
+        import vlib
+        lines = [l for l, _ in self.RFC_WITNESSES]
+        rc, out, err = vlib.run_lines(vlib.RUN, lines)
+        rc2, out2, err2 = vlib.run_lines(vlib.DRV, ["ctlrfc" + l[3:] for l in lines])
+        if rc != 0 or rc2 != 0 or len(out) != len(lines) or len(out2) != len(lines):
+            return [("broken", "C04: the RFC witnesses could not be run", {})]
+        res = []
+        for (l, what), raw, drv in zip(self.RFC_WITNESSES, out, out2):
+            impl = project(l, raw)
+            spec = drv.split(" ## ", 1)[1].strip() if " ## " in drv else "?"
+            if not vlib.spec_match(spec, impl):
+                res.append(("note", "outside C04's text (server push is not implemented, reading R-04b), RFC 9114 by the letter: %s: `%s` "
+                                    "impl=`%s` RFC table=`%s`" % (what, l, impl.split(" | ")[0], spec), {}))
+        return res
 
     def klass(self, line, impl):
         w = line.split()
